@@ -963,11 +963,11 @@ func (env *Env) callExpr(e *ECall) V {
 		// frame rule for objects allocated by this function: if every heap array the function reads differs from its
 		// entry version only by writes at refs this function allocated, then no object that existed at entry was
 		// modified, and for arguments that existed at entry (all allocation ids below ac0) the value is the entry value.
-		var alt []string
+		var alt, peelGuards []string
 		if nr := len(fc.readKeys(f)); len(f.Reads) > 0 && nr > 0 && !fc.dry {
 			changed, allEntry := false, true
 			for k := 0; k < nr; k++ {
-				p, ok := fc.peelFresh(flat[k])
+				p, gs, ok := fc.peelGuarded(flat[k])
 				if p != flat[k] {
 					changed = true
 				}
@@ -975,6 +975,7 @@ func (env *Env) callExpr(e *ECall) V {
 					allEntry = false
 				}
 				alt = append(alt, p)
+				peelGuards = append(peelGuards, gs...)
 			}
 			if changed && allEntry {
 				alt = append(alt, flat[nr:]...)
@@ -984,6 +985,7 @@ func (env *Env) callExpr(e *ECall) V {
 		}
 		var guard []string
 		if alt != nil {
+			guard = append(guard, peelGuards...)
 			for i, a := range args {
 				pt := env.specType(f.Params[i].Ty)
 				if isSlice(pt) || isPointer(pt) {
@@ -1145,6 +1147,9 @@ func (env *Env) resolveTargetIn(text string, st *State) []modTarget {
 
 func (env *Env) resolveTarget(text string) []modTarget {
 	fc := env.fc
+	if strings.TrimSpace(text) == "fresh" {
+		return nil // explicit empty frame: only objects allocated after the frame began may be written
+	}
 	x, err := ParseExpr(text)
 	if err != nil {
 		panic(specErr("modifies target %q: %v", text, err))
